@@ -1164,7 +1164,13 @@ class GenericPlainRegistry(Generic[QuantityT, UnitT], metaclass=RegistryMeta):
                             self._suffixes[suffix],
                         )
                 else:
-                    for real_name in self._units_casei.get(name.lower(), ()):
+                    # The spellings are kept in a set: order them (the spelling
+                    # as written first) so that the reading chosen among several
+                    # does not depend on the hash seed.
+                    for real_name in sorted(
+                        self._units_casei.get(name.lower(), ()),
+                        key=lambda spelling: (spelling != name, spelling),
+                    ):
                         yield (
                             self._prefixes[prefix].name,
                             self._units[real_name].name,
